@@ -999,8 +999,29 @@ func (o *Origin) sliceLit(s *ssa.Slice) *Term {
 	return &Term{Op: "slicelit", Name: shortPkg(arr.Elem().String()), Args: elems}
 }
 
+// devirt: an invoke on an interface DECLARED IN THE MODULE that exactly one module type implements is a call of that type's
+// method (a msg server that holds its keeper behind a small interface of its own). Interfaces of the SDK (expected keepers,
+// codecs, stores) are never devirtualised.
+func devirt(c *ssa.CallCommon) *ssa.Function {
+	if !c.IsInvoke() || progForFacts == nil {
+		return nil
+	}
+	n, ok := c.Value.Type().(*types.Named)
+	if !ok || n.Obj().Pkg() == nil || !strings.HasPrefix(n.Obj().Pkg().Path(), ModPath) {
+		return nil
+	}
+	impls := progForFacts.moduleImplementers(n, c.Method)
+	if len(impls) != 1 || impls[0] == nil || impls[0].Blocks == nil {
+		return nil
+	}
+	return impls[0]
+}
+
 func calleeName(c *ssa.CallCommon) string {
 	if c.IsInvoke() {
+		if f := devirt(c); f != nil {
+			return FuncName(f)
+		}
 		return "invoke:" + shortPkg(c.Value.Type().String()) + "." + c.Method.Name()
 	}
 	switch f := c.Value.(type) {
